@@ -258,6 +258,30 @@ func genScript(r *rand.Rand, kind string) []Op {
 			}
 		}
 		s = append(s, Op{Op: "adv", Dt: 20000})
+	case "veryfar": // deadlines days away and idle periods longer than a day: a timer armed for less than the wait must not report early, and an idle deadliner reports nothing
+		k := r.Intn(4) // 0 = nothing pending at all
+		var slots []int
+		for i := 0; i < k; i++ {
+			sl := 90000 + r.Intn(800000) // 25 h .. ~10 days
+			slots = append(slots, sl)
+			s = append(s, Op{Op: "add", D: sl*4 + r.Intn(4)})
+		}
+		for i := 0; i < 3+r.Intn(5); i++ {
+			switch x := r.Intn(5); {
+			case x == 0:
+				s = append(s, Op{Op: "adv", Dt: 86400})
+			case x == 1:
+				s = append(s, Op{Op: "adv", Dt: 86400 + 1 + r.Intn(200000)})
+			case x == 2 && len(slots) > 0:
+				sl := slots[r.Intn(len(slots))]
+				s = append(s, Op{Op: "add", D: sl*4 + r.Intn(3)})
+			case x == 3:
+				s = append(s, Op{Op: "adv", Dt: 43200 + r.Intn(43200)})
+			default:
+				s = append(s, Op{Op: "read", N: 1 + r.Intn(4)})
+			}
+		}
+		s = append(s, Op{Op: "adv", Dt: 1000000}, Op{Op: "read", N: 10})
 	case "burst": // many duties with one deadline, consumer reads late: exercises the full queue
 		k := 8 + r.Intn(20)
 		slot := 1 + r.Intn(3)
@@ -323,6 +347,9 @@ func TestGen(t *testing.T) {
 	corpus := [][]Op{
 		{{Op: "add", D: 20}, {Op: "adv", Dt: 5}, {Op: "add", D: 20}, {Op: "adv", Dt: 0}, {Op: "read", N: 5}},
 		{{Op: "add", D: 4}, {Op: "add", D: 5}, {Op: "add", D: 8}, {Op: "adv", Dt: 1}, {Op: "read", N: 1}, {Op: "add", D: 4}, {Op: "adv", Dt: 1}},
+		// seeded C16-r7m2: a duty registered more than a day before its deadline; an idle deadliner over several days
+		{{Op: "add", D: 4 * 172800}, {Op: "adv", Dt: 86400}, {Op: "read", N: 2}, {Op: "adv", Dt: 86400}, {Op: "read", N: 2}, {Op: "adv", Dt: 10}},
+		{{Op: "adv", Dt: 86400}, {Op: "adv", Dt: 86400}, {Op: "adv", Dt: 90000}, {Op: "read", N: 5}},
 	}
 	for _, c := range corpus {
 		hs = append(hs, History{ID: len(hs), Kind: "corpus", Script: c})
@@ -340,6 +367,8 @@ func TestGen(t *testing.T) {
 			kind = "far"
 		case x == 5:
 			kind = "duerace"
+		case x == 6 && r.Intn(2) == 0:
+			kind = "veryfar"
 		}
 		hs = append(hs, History{ID: len(hs), Kind: kind, Script: genScript(r, kind)})
 	}
